@@ -42,6 +42,20 @@ CHECKS += [
     ),
 ]
 
+CHECKS += [
+    dict(
+        id="C06",
+        text="Frames of 3 (thorough 4) rows with a numeric column, a text column and a response: every null pattern over the data columns x "
+             "four index kinds (default, strings, non-unique, unsorted ints that collide with positions) x nine formulas (plain, interaction, "
+             "C(), Python factor, two-sided, multi-part, hashed()) x caller drop sets x five entry points x three outputs x three policies, "
+             "organised so that every pair of dimensions is fully crossed in some sub-check, plus fitted-spec reuse.  A reference null model "
+             "predicts the kept rows; output rows, pandas index (by position) and the caller's drop set afterwards are compared exactly.",
+        design_ref="DESIGN.md section 3 C06",
+        note="Trusted: the kept-row model for element-wise factors; expected cell values come from the same library on the clean sub-frame "
+             "(values are C02's subject). 'ignore' + caller drop set is not checked (property silent).",
+    ),
+]
+
 ALL = ["C%02d" % i for i in range(1, 21)]
 _reason = "check not built yet in this revision (work in progress; see DESIGN.md section 3 for the planned bounded-exhaustive check)"
 NOT_APPLICABLE = [dict(property_id=i, reason=_reason) for i in ALL if i not in {c["id"] for c in CHECKS}]
